@@ -335,10 +335,11 @@ def oracle(c):
                 return "operations.tangent(curve, %s) is not (point, first derivative)" % fr(u)
             if list(b[0]) != w[0] or list(b[1]) != w[1]:
                 return "operations.tangent(curve, [..]) differs from the single-parameter call at %s" % fr(u)
-        nn = operations.tangent(o, q(us[0]), normalize=True)
-        ln = sum(float(x) ** 2 for x in nn[1])
-        if any(x != 0 for x in want[0][1]) and abs(ln - 1.0) > 1e-12:
-            return "normalised tangent has squared length %r" % ln
+        if any(x != 0 for x in want[0][1]):        # a zero derivative cannot be normalised (the library raises, rightly)
+            nn = operations.tangent(o, q(us[0]), normalize=True)
+            ln = sum(float(x) ** 2 for x in nn[1])
+            if abs(ln - 1.0) > 1e-12:
+                return "normalised tangent has squared length %r" % ln
         return None
     if c.kind == 'tangent-normal-list':
         uvs = c.data['uvs']
@@ -369,10 +370,11 @@ def oracle(c):
                 return "operations.normal is not the cross product of the two tangents"
             if sum(x * y for x, y in zip(cross, a)) != 0 or sum(x * y for x, y in zip(cross, b)) != 0:
                 return "normal not orthogonal to the tangents"
-            nn = operations.normal(o, (q(u), q(v)), normalize=True)
-            ln = sum(float(x) ** 2 for x in nn[1])
-            if any(x != 0 for x in cross) and abs(ln - 1.0) > 1e-12:
-                return "normalised normal has squared length %r" % ln
+            if any(x != 0 for x in cross):
+                nn = operations.normal(o, (q(u), q(v)), normalize=True)
+                ln = sum(float(x) ** 2 for x in nn[1])
+                if abs(ln - 1.0) > 1e-12:
+                    return "normalised normal has squared length %r" % ln
         return None
     return None
 
